@@ -36,7 +36,7 @@ def units(tier):
 
 
 def check_spec(sp, labels, res, tmpdir, fmt=FMT, precision=4, prop="C02", reuse=False):
-    case = {"labels": list(labels), "fmt": fmt, "precision": precision}
+    case = {"labels": list(labels), "fmt": fmt, "precision": precision, "reuse": reuse}
     res.evals += 1; res.transitions += 2; res.states += 1
     if labels:
         res.nontrivial += 1
@@ -151,7 +151,8 @@ def spec_from_labels(labels, fmt=FMT):
 def replay(case):
     res = Result()
     d = tempfile.mkdtemp(prefix="c02_")
-    check_spec(spec_from_labels(case["labels"], case.get("fmt", FMT)), tuple(case["labels"]), res, d, case.get("fmt", FMT), case.get("precision", 4))
+    check_spec(spec_from_labels(case["labels"], case.get("fmt", FMT)), tuple(case["labels"]), res, d, case.get("fmt", FMT), case.get("precision", 4),
+               reuse=case.get("reuse", False))
     import shutil
     shutil.rmtree(d, ignore_errors=True)
     return [(s, dd) for s, dd, _ in res.violations]
